@@ -159,7 +159,48 @@ def _compare(dist, m, c, tol_mean, tol_cov, what, ctx, acc_ratio=None):
                         % (what, gc.tolist(), wc.tolist(), tuple(int(v) for v in k), ec[k], tol_cov[k], ctx))
 
 
+def check_bigx(case):
+    """Conditioning on 64 and more variables at once.  The Gaussian is given through its precision matrix
+    K = (I - W)(I - W)^T for a banded W with dyadic weights (K is exact in floating point), the library receives inv(K);
+    with X = all variables but Y the conditional is N(mu_Y - K_YY^-1 K_YX (x - mu_X), K_YY^-1): an independent formula that
+    never touches the big conditioning block."""
+    import sempler
+    p, band, ny = case["p"], case["band"], case["ny"]
+    idx = [(case["a"] * k + 1) % p for k in range(p)]
+    W = np.zeros((p, p))
+    ws = [0.25, -0.5, 0.125, -0.25, 0.5]
+    for k in range(p):
+        for d in range(1, band + 1):
+            if k - d >= 0 and (k + d) % 3:
+                W[idx[k - d], idx[k]] = ws[(k * d) % len(ws)]
+    IW = np.eye(p) - W
+    K = IW @ IW.T
+    cov = np.linalg.inv(K)
+    mu = np.array([(3 * k % 7) - 3.0 for k in range(p)])
+    order = [(case["b"] * k + 2) % p for k in range(p)]
+    Y, Xi = order[:ny], order[ny:]
+    x = np.array([((5 * k) % 9 - 4) / 4.0 for k in range(len(Xi))])
+    Kyy = K[np.ix_(Y, Y)]
+    Kyx = K[np.ix_(Y, Xi)]
+    want_cov = np.linalg.inv(Kyy)
+    want_mean = mu[Y] - want_cov @ (Kyx @ (x - mu[Xi]))
+    dist = must(lib(sempler.NormalDistribution, mu.copy(), cov.copy()), "NormalDistribution(p=%d)" % p)
+    res = must(lib(dist.conditional, list(Y), np.array(Xi), x.copy()), "conditional(|Y|=%d, |X|=%d)" % (ny, len(Xi)))
+    gm, gc = np.asarray(res.mean, dtype=float), np.asarray(res.covariance, dtype=float)
+    if gm.shape != (ny,) or gc.shape != (ny, ny):
+        raise Violation("bad_shape", "conditional on %d variables: mean %r covariance %r" % (len(Xi), gm.shape, gc.shape))
+    tol = 1e-7 * np.linalg.cond(K)
+    em = float(np.abs(gm - want_mean).max() / (1 + np.abs(want_mean).max()))
+    ec = float(np.abs(gc - want_cov).max() / np.abs(want_cov).max())
+    if not (em <= tol and ec <= tol):
+        raise Violation("conditional_wrong", "conditional of %d variables given the other %d (p=%d, banded precision): relative error mean %.3g "
+                        "covariance %.3g (tol %.3g); mean %s vs %s" % (ny, len(Xi), p, em, ec, tol, gm.tolist(), want_mean.tolist()))
+    return ["bigx", "X_ge_64", "nt"]
+
+
 def check(case):
+    if case["sub"] == "bigx":
+        return check_bigx(case)
     import sempler
     sub = case["sub"]
     mean, cov = build(case)
@@ -421,6 +462,7 @@ def plan(tier, seed):
     shards = 16 if tier == "quick" else 64
     for k in range(shards):
         jobs.append({"sub": "cond", "seed": seed, "shard": k, "n": max(1, n // shards), "cost": 10})
+    jobs.append({"sub": "bigx", "seed": seed, "tier": tier, "cost": 6})
     ne = scaled(1600 if tier == "quick" else 16000)
     for k in range(4 if tier == "quick" else 16):
         jobs.append({"sub": "errors", "seed": seed, "shard": k, "salt": 3, "n": max(1, ne // (4 if tier == "quick" else 16)), "cost": 2})
@@ -429,6 +471,20 @@ def plan(tier, seed):
 
 def run(job):
     acc = Acc(job["sub"])
+    if job["sub"] == "bigx":
+        import math
+        for k, (p, band, ny) in enumerate([(67, 2, 3), (70, 3, 1), (100, 2, 4), (150, 3, 2), (66, 1, 2), (96, 4, 3)] +
+                                          ([(300, 3, 5), (257, 2, 1)] if job.get("tier") == "thorough" else [])):
+            a = next(v for v in range(5 + (job["seed"] + k) % 11, 5 + (job["seed"] + k) % 11 + 4 * p) if math.gcd(v, p) == 1)
+            b = next(v for v in range(a + 3, a + 3 + 4 * p) if math.gcd(v, p) == 1)
+            case = {"sub": "bigx", "p": p, "band": band, "ny": ny, "a": a, "b": b}
+            try:
+                acc.record(case, check(case), True, by_construction=True)
+            except Violation as v:
+                acc.record(case, [], False)
+                acc.violation(case, v)
+        acc.exhaustive = False
+        return acc
     if job["sub"] == "cond":
         run_property(acc, cond_case(), check, _nontrivial, job["n"], job_seed(job))
         acc.discarded = acc.classes.get("discard_illconditioned", 0)
